@@ -353,4 +353,27 @@ example : (GoSandbox.Model.CpusetInherit.initH (cpusetTrees.getD 4 ("", [])).2 "
     some [("/cs/a/cpuset.cpus", "0-3\n"), ("/cs/a/b/cpuset.cpus", "0-3\n"), ("/cs/a/cpuset.mems", "0\n"), ("/cs/a/b/cpuset.mems", "0\n")] := by
   decide +kernel
 
+/-- **a handle made under a parent handle owns exactly what its own mkdirs made** (regenerated `(*V1).New`, run
+for every subset of already existing controller directories, with parents that have four and two controllers):
+the handle uses every controller directory of the group; it counts as created by it exactly the directories
+that were NOT there (in controller order) — which are exactly the directories it made; `Existing()` is set when
+the first controller's directory was there; and `New` followed by the regenerated `Destroy` removes no
+directory that existed before — it removes what was created when the handle is a creating one and nothing
+otherwise.  This is the step `ostep (.mk h d)` of the ownership theorems, for the v1 code under a parent. -/
+theorem C20_gen_v1_new :
+    ([["cpu", "cpuset", "memory", "pids"], ["memory", "pids"]].all (fun ctrls =>
+      let dirOf := fun (c : String) => "/cg/" ++ c ++ "/par/job"
+      (subsets ctrls).all (fun pre =>
+        let dirs := pre.map dirOf
+        match genNewSubV1 ctrls "job" dirs, genNewThenDestroyV1 ctrls "job" dirs with
+        | .ok (allP, createdP, existing, made), .ok removed =>
+          allP == ctrls.map dirOf &&
+          createdP == (ctrls.filter (fun c => !pre.contains c)).map dirOf &&
+          made == createdP &&
+          existing == pre.contains (ctrls.headD "") &&
+          dirs.all (fun d => !removed.contains ("rmdir " ++ d)) &&
+          removed == (if existing then [] else createdP.map (fun d => "rmdir " ++ d))
+        | _, _ => false))) = true := by
+  decide +kernel
+
 end GoSandbox.Props.C20
